@@ -382,7 +382,10 @@ class _KafkaBrokerClient(ClientFactory):
     def _sendQueued(self):
         """Connection just came up, send the unsent requests."""
         for tReq in list(self.requests.values()):  # must copy, may del
-            if tReq.sent is None:
+            # A callback run by an earlier iteration (a request that expects
+            # no response fires as soon as it is written) may have cancelled
+            # this request or closed the client: it is no longer ours to send.
+            if tReq.sent is None and self.requests.get(tReq.correlationId) is tReq:
                 self._sendRequest(tReq)
 
     def _cancelRequest(self, correlationId, deferred):
